@@ -20,7 +20,7 @@ package dagsync
 //@   modifies h.subscriber.latestSyncHandler
 //@   ensures-local count("call:setLatestSync") == 1 && count("send:inEvents") == 1 && before("call:setLatestSync", "send:inEvents")
 //@   ensures-local evarg("send:inEvents", 1) == str(c.str) && evarg("send:inEvents", 2) == str(h.peerID) && evarg("send:inEvents", 3) == count
-//@   at call setLatestSync#1: assert arg1 == h.peerID && arg2 == c
+//@   at call setLatestSync: assert arg1 == h.peerID && arg2 == c
 
 // Close runs the shutdown sequence exactly once.
 //@ spec func subOK(s val) bool = s != nil && s.closing != nil && s.inEvents != nil && s.addEventChan != nil && s.rmEventChan != nil && s.httpPeerstore != nil && s.host != nil && s.ipniSync != nil && s.ipniSync.clientHost != nil && s.handlers != nil && all(k, has(s.handlers, k) ==> s.handlers[k] != nil && s.handlers[k].subscriber == s && str(s.handlers[k].peerID) == k) && !closed(s.addEventChan) && !closed(s.rmEventChan) && s.closing != s.inEvents && (closed(s.inEvents) ==> closed(s.closing)) && s.scopedBlockHook != nil && s.scopedBlockHookMutex != nil && (s.receiver != nil ==> s.watchDone != nil && recvOK(s.receiver) && s.receiver.outChan != s.closing && s.receiver.done != s.closing && s.receiver.done != s.inEvents && (s.receiver.cancelWatch != nil ==> s.receiver.watchDone != nil) && (s.receiver.cancelPubsub != nil ==> s.receiver.topic != nil))
@@ -67,10 +67,10 @@ package dagsync
 // options is unbounded), so a listener that does not read delays neither the distributor nor the others;
 // the channel registered is that queue's input and the channel handed out its output
 //@   ghost q := 0
-//@   at call New#1: assert len(arg0) == 0
-//@   at call New#1: after ghost q := result
-//@   at call In#1: assert arg0 == q
-//@   at call Out#1: assert arg0 == q
+//@   at call New: assert len(arg0) == 0
+//@   at call New: after ghost q := result
+//@   at call In: assert arg0 == q
+//@   at call Out: assert arg0 == q
 //@   ensures-local count("call:New") == 1
 
 // The event distributor (C14). Per loop iteration: an event received is sent
@@ -169,13 +169,13 @@ package dagsync
 //@   at call Sync: after ghost gcount := syncedCount
 //@   ensures result1 == nil ==> result0 == gcount
 //@   ghost segSync0 := zero("*cid.Cid")
-//@   at call reset#1: ghost segSync0 := segSync.nextSyncCid
-//@   at call withRecursionLimit#1: assert arg0 == sel && arg1.mode == 1 && arg1.depth == nextDepth
+//@   at call reset: ghost segSync0 := segSync.nextSyncCid
+//@   at call withRecursionLimit: assert arg0 == sel && arg1.mode == 1 && arg1.depth == nextDepth
 // the selector handed to a segment's Sync is the one built for that segment's depth:
 //@   ghost gdepth := 0
 //@   ghost gsel := zero("ipld.Node")
-//@   at call withRecursionLimit#1: after ghost gdepth := arg1.depth
-//@   at call withRecursionLimit#1: after ghost gsel := result0
+//@   at call withRecursionLimit: after ghost gdepth := arg1.depth
+//@   at call withRecursionLimit: after ghost gsel := result0
 //@   at call Sync#2: assert gdepth == nextDepth && arg3 == gsel
 // the stop block is never the root of a further segment (it would be fetched: the selector's stop
 // condition does not apply to the root of a traversal):
@@ -261,22 +261,22 @@ package dagsync
 //@   at call recursionLimit#1: after ghost rlScoped := result
 //@   at call recursionLimit#2: assert arg0 == s.firstSyncDepth
 //@   at call recursionLimit#2: after ghost rlFirst := result
-//@   at call GetLatestSync#1: assert arg1 == peerInfo.ID
-//@   at call GetLatestSync#1: after ghost latest := result
-//@   at call GetHead#1: ghost headQueried := true
-//@   at call GetHead#1: after ghost headFailed := result1 != nil
-//@   at call ExploreRecursiveWithStopNode#1: assert arg0 == ite(opts.depthLimit != 0, rlScoped, ite(stopLnk == nil && s.firstSyncDepth != 0, rlFirst, s.adsDepthLimit))
-//@   at call ExploreRecursiveWithStopNode#1: assert arg1 == s.adsSelectorSeq && arg2 == stopLnk
-//@   at call ExploreRecursiveWithStopNode#1: assert opts.stopAdCid != cid.Undef ==> typeis(stopLnk, "cidlink.Link") && payload(stopLnk) == str(opts.stopAdCid.str)
-//@   at call ExploreRecursiveWithStopNode#1: assert opts.stopAdCid == cid.Undef && opts.resync ==> stopLnk == nil
-//@   at call ExploreRecursiveWithStopNode#1: assert opts.stopAdCid == cid.Undef && !opts.resync ==> stopLnk == latest
-//@   at call ExploreRecursiveWithStopNode#1: after ghost selBuilt := result
+//@   at call GetLatestSync: assert arg1 == peerInfo.ID
+//@   at call GetLatestSync: after ghost latest := result
+//@   at call GetHead: ghost headQueried := true
+//@   at call GetHead: after ghost headFailed := result1 != nil
+//@   at call ExploreRecursiveWithStopNode: assert arg0 == ite(opts.depthLimit != 0, rlScoped, ite(stopLnk == nil && s.firstSyncDepth != 0, rlFirst, s.adsDepthLimit))
+//@   at call ExploreRecursiveWithStopNode: assert arg1 == s.adsSelectorSeq && arg2 == stopLnk
+//@   at call ExploreRecursiveWithStopNode: assert opts.stopAdCid != cid.Undef ==> typeis(stopLnk, "cidlink.Link") && payload(stopLnk) == str(opts.stopAdCid.str)
+//@   at call ExploreRecursiveWithStopNode: assert opts.stopAdCid == cid.Undef && opts.resync ==> stopLnk == nil
+//@   at call ExploreRecursiveWithStopNode: assert opts.stopAdCid == cid.Undef && !opts.resync ==> stopLnk == latest
+//@   at call ExploreRecursiveWithStopNode: after ghost selBuilt := result
 //@   ghost selBuilt := zero("ipld.Node")
-//@   at call handle#1: assert !headFailed && arg2 == nextCid && arg3 == selBuilt && arg4 == syncer && arg5 == opts.blockHook
-//@   at call handle#1: assert arg6 == ite(opts.segDepthLimit != 0, opts.segDepthLimit, s.segDepthLimit)
-//@   at call handle#1: assert ite(stopLnk != nil, str(arg7.str) == payload(stopLnk) && arg7 != nextCid, str(arg7.str) == str(""))
-//@   at call handle#1: assert ite(opts.headAdCid != cid.Undef, nextCid == opts.headAdCid && !headQueried, headQueried)
-//@   at call GetLatestSync#1: after assume result != nil ==> typeis(result, "cidlink.Link")
+//@   at call handle: assert !headFailed && arg2 == nextCid && arg3 == selBuilt && arg4 == syncer && arg5 == opts.blockHook
+//@   at call handle: assert arg6 == ite(opts.segDepthLimit != 0, opts.segDepthLimit, s.segDepthLimit)
+//@   at call handle: assert ite(stopLnk != nil, str(arg7.str) == payload(stopLnk) && arg7 != nextCid, str(arg7.str) == str(""))
+//@   at call handle: assert ite(opts.headAdCid != cid.Undef, nextCid == opts.headAdCid && !headQueried, headQueried)
+//@   at call GetLatestSync: after assume result != nil ==> typeis(result, "cidlink.Link")
 //@   assumes str(cid.Undef.str) == str("")
 //@   ensures-local old(s.expSyncClosed) ==> result1 != nil && count("wg.add:expSyncWG") == 0 && count("call:handle") == 0
 //@   ensures-local !old(s.expSyncClosed) ==> count("wg.add:expSyncWG") == 1 && count("wg.done:expSyncWG") == 1
@@ -288,7 +288,7 @@ package dagsync
 //@   ensures-local count("call:handle") <= 1 && count("call:sendSyncFinishedEvent") <= 1
 //@   ensures-local result1 == nil && count("call:handle") == 1 ==> count("call:updatePeerstore") == 1 && (count("call:sendSyncFinishedEvent") == 1 <==> headQueried) && before("call:handle", "call:updatePeerstore")
 //@   ensures-local count("call:sendSyncFinishedEvent") == 1 ==> before("call:handle", "call:sendSyncFinishedEvent") && before("call:updatePeerstore", "call:sendSyncFinishedEvent")
-//@   at call sendSyncFinishedEvent#1: assert arg1 == nextCid && arg2 == syncCount
+//@   at call sendSyncFinishedEvent: assert arg1 == nextCid && arg2 == syncCount
 
 // ---------------------------------------------------------------------------
 // Announce-triggered syncs (C04, C08, C01)
@@ -306,29 +306,29 @@ package dagsync
 //@   assumes str(cid.Undef.str) == str("")
 // rely (guaranteed by the only other writer of the slot, the watcher: asserted there): an announcement
 // pending for a handler is one from that handler's publisher
-//@   at call Swap#1: after assume result != nil ==> result.PeerID == h.peerID
+//@   at call Swap: after assume result != nil ==> result.PeerID == h.peerID
 //@   mayblock send:inEvents
 //@   modifies h.pendingMsg, h.syncer, mapof(h.subscriber.scopedBlockHook), h.subscriber.latestSyncHandler, state(h.subscriber.receiver)
 //@   ghost taken := zero("*announce.Announce")
 //@   ghost latest := zero("ipld.Link")
 //@   ghost rlFirst := zero("selector.RecursionLimit")
 //@   ghost selBuilt := zero("ipld.Node")
-//@   at call Swap#1: assert arg1 == nil && count("call:handle") == 0
-//@   at call Swap#1: after ghost taken := result
-//@   at call Swap#1: after assume result != nil
-//@   at call GetLatestSync#1: assert arg1 == h.peerID
-//@   at call GetLatestSync#1: after ghost latest := result
-//@   at call GetLatestSync#1: after assume result != nil ==> typeis(result, "cidlink.Link")
-//@   at call recursionLimit#1: assert arg0 == h.subscriber.firstSyncDepth
-//@   at call recursionLimit#1: after ghost rlFirst := result
-//@   at call ExploreRecursiveWithStopNode#1: assert arg0 == ite(latest == nil && h.subscriber.firstSyncDepth != 0, rlFirst, h.subscriber.adsDepthLimit) && arg1 == h.subscriber.adsSelectorSeq && arg2 == latest
-//@   at call ExploreRecursiveWithStopNode#1: after ghost selBuilt := result
-//@   at call handle#1: assert arg2 == taken.Cid && arg3 == selBuilt && arg6 == h.subscriber.segDepthLimit
-//@   at call handle#1: assert ite(latest != nil, str(arg7.str) == payload(latest) && arg7 != taken.Cid, str(arg7.str) == str(""))
-//@   at call UncacheCid#1: assert arg1 == taken.Cid
-//@   at call sendSyncFinishedEvent#1: assert arg1 == taken.Cid && arg2 == syncCount
+//@   at call Swap: assert arg1 == nil && count("call:handle") == 0
+//@   at call Swap: after ghost taken := result
+//@   at call Swap: after assume result != nil
+//@   at call GetLatestSync: assert arg1 == h.peerID
+//@   at call GetLatestSync: after ghost latest := result
+//@   at call GetLatestSync: after assume result != nil ==> typeis(result, "cidlink.Link")
+//@   at call recursionLimit: assert arg0 == h.subscriber.firstSyncDepth
+//@   at call recursionLimit: after ghost rlFirst := result
+//@   at call ExploreRecursiveWithStopNode: assert arg0 == ite(latest == nil && h.subscriber.firstSyncDepth != 0, rlFirst, h.subscriber.adsDepthLimit) && arg1 == h.subscriber.adsSelectorSeq && arg2 == latest
+//@   at call ExploreRecursiveWithStopNode: after ghost selBuilt := result
+//@   at call handle: assert arg2 == taken.Cid && arg3 == selBuilt && arg6 == h.subscriber.segDepthLimit
+//@   at call handle: assert ite(latest != nil, str(arg7.str) == payload(latest) && arg7 != taken.Cid, str(arg7.str) == str(""))
+//@   at call UncacheCid: assert arg1 == taken.Cid
+//@   at call sendSyncFinishedEvent: assert arg1 == taken.Cid && arg2 == syncCount
 //@   ghost failed := false
-//@   at call handle#1: after ghost failed := result1 != nil
+//@   at call handle: after ghost failed := result1 != nil
 //@   ensures-local count("atomic.swap:pendingMsg") <= 1 && count("call:handle") <= 1
 // the pending slot is only ever emptied here (taking the newest announcement); nothing is put back, so
 // that the watcher's "spawn iff the slot was empty" rule keeps every later announcement acted on:
@@ -351,9 +351,9 @@ package dagsync
 //@   requires wg(s.asyncWG) >= 1
 //@   requires hOK(hnd) && !held(s.ipniSync.clientHostMutex)
 //@   mayblock
-//@   at call asyncSyncAdChain#1: assert held(hnd.asyncMutex)
+//@   at call asyncSyncAdChain: assert held(hnd.asyncMutex)
 // the sync starts with a concurrency slot, or (context cancelled) only to be abandoned:
-//@   at call asyncSyncAdChain#1: assert s.syncSem != nil ==> count("send:syncSem") == 1 || count("recv:Done") == 1
+//@   at call asyncSyncAdChain: assert s.syncSem != nil ==> count("send:syncSem") == 1 || count("recv:Done") == 1
 //@   ensures-local count("call:asyncSyncAdChain") == 1 && count("wg.done:asyncWG") == 1 && before("call:asyncSyncAdChain", "wg.done:asyncWG")
 //@   ensures-local before("lock:asyncMutex", "call:asyncSyncAdChain")
 //@   ensures-local count("send:syncSem") == count("recv:syncSem")
@@ -366,14 +366,14 @@ package dagsync
 //@   requires !closed(s.inEvents) && (s.syncSem != nil ==> !closed(s.syncSem))
 //@   requires handlersSyncers(s) && !held(s.ipniSync.clientHostMutex)
 // guarantee for asyncSyncAdChain's rely: what is put into a handler's pending slot comes from its publisher
-//@   at call Swap#1: assert arg1 != nil && arg1.PeerID == hnd.peerID
+//@   at call Swap: assert arg1 != nil && arg1.PeerID == hnd.peerID
 //@   mayblock
 //@   ghost old0 := zero("*announce.Announce")
 //@   loop 1: invariant subOK(s) && s.receiver != nil && !held(s.handlersMutex) && !closed(s.watchDone) && cancel != nil
 //@   loop 1: invariant !closed(s.inEvents) && (s.syncSem != nil ==> !closed(s.syncSem))
 //@   loop 1: invariant handlersSyncers(s) && !held(s.ipniSync.clientHostMutex)
 //@   loop 1: iteration ghost spawned := false
-//@   at call Swap#1: after ghost old0 := result
+//@   at call Swap: after ghost old0 := result
 //@   loop 1: iteration ensures itercount("go:watch$1") == ite(old0 == nil, 1, 0) && itercount("wg.add:asyncWG") == itercount("go:watch$1")
 //@   ensures-local count("close:watchDone") == 1
 
@@ -390,7 +390,7 @@ package dagsync
 //@   property C15 C04 C01
 //@   requires subOK(s) && handlersFree(s) && handlersSyncers(s) && ctx != nil && !held(s.expSyncMutex) && !held(s.handlersMutex) && !held(s.scopedBlockHookMutex) && !held(s.ipniSync.clientHostMutex)
 //@   assumes str(cid.Undef.str) == str("")
-//@   at call handle#1: assert arg2 == entCid && arg3 == sel && arg5 == bh && arg6 == segdl && str(arg7.str) == str("")
+//@   at call handle: assert arg2 == entCid && arg3 == sel && arg5 == bh && arg6 == segdl && str(arg7.str) == str("")
 //@   ensures-local entCid != cid.Undef && old(s.expSyncClosed) ==> result != nil && count("wg.add:expSyncWG") == 0 && count("call:handle") == 0
 //@   ensures-local entCid != cid.Undef && !old(s.expSyncClosed) ==> count("wg.add:expSyncWG") == 1 && count("wg.done:expSyncWG") == 1
 //@   ensures-local before("wg.add:expSyncWG", "call:handle") && before("wg.add:expSyncWG", "call:makeSyncer")
@@ -407,8 +407,8 @@ package dagsync
 //@   requires subOK(s) && !held(s.handlersMutex) && handlersFree(s)
 //@   shutdown closing
 //@   ghost pend := zero("*announce.Announce")
-//@   at call Load#1: after ghost pend := result
-//@   at call delete#1: assert held(hnd.asyncMutex) && held(hnd.syncMutex) && pend == nil && count("call:Load") >= 1 && now > hnd.expires
+//@   at call Load: after ghost pend := result
+//@   at call delete: assert held(hnd.asyncMutex) && held(hnd.syncMutex) && pend == nil && count("call:Load") >= 1 && now > hnd.expires
 //@   loop 2: iteration ensures !held(hnd.asyncMutex) && !held(hnd.syncMutex)
 //@   loop 1: invariant subOK(s) && !held(s.handlersMutex) && t != nil && handlersFree(s)
 //@   loop 2: invariant subOK(s) && held(s.handlersMutex) && t != nil && handlersFree(s)
@@ -439,7 +439,7 @@ package dagsync
 //@ func (*Subscriber).SyncOneEntry
 //@   property C01
 //@   requires subOK(s) && handlersFree(s) && handlersSyncers(s) && ctx != nil && !held(s.expSyncMutex) && !held(s.handlersMutex) && !held(s.scopedBlockHookMutex) && !held(s.ipniSync.clientHostMutex)
-//@   at call syncEntries#1: assert arg2 == peerInfo && arg3 == entCid && arg4 == s.selectorOne && arg5 == s.generalBlockHook && arg6 == -1
+//@   at call syncEntries: assert arg2 == peerInfo && arg3 == entCid && arg4 == s.selectorOne && arg5 == s.generalBlockHook && arg6 == -1
 
 // An entries chain: the per-call hook if given, else the general one; the per-call depth limit if given
 // (a selector built for exactly that limit), else the subscriber's entries selector.
@@ -448,12 +448,12 @@ package dagsync
 //@   requires subOK(s) && handlersFree(s) && handlersSyncers(s) && ctx != nil && !held(s.expSyncMutex) && !held(s.handlersMutex) && !held(s.scopedBlockHookMutex) && !held(s.ipniSync.clientHostMutex)
 //@   ghost hook0 := zero("BlockHookFunc")
 //@   ghost rl := zero("selector.RecursionLimit")
-//@   at call getSyncOpts#1: after ghost hook0 := result.blockHook
-//@   at call recursionLimit#1: assert arg0 == opts.depthLimit && opts.depthLimit != 0
-//@   at call recursionLimit#1: after ghost rl := result
-//@   at call ExploreRecursive#1: assert arg1 == rl
-//@   at call syncEntries#1: assert arg2 == peerInfo && arg3 == entCid && arg5 == ite(hook0 == nil, s.generalBlockHook, hook0) && arg6 == s.segDepthLimit
-//@   at call syncEntries#1: assert opts.depthLimit == 0 ==> arg4 == s.selectorEnts
+//@   at call getSyncOpts: after ghost hook0 := result.blockHook
+//@   at call recursionLimit: assert arg0 == opts.depthLimit && opts.depthLimit != 0
+//@   at call recursionLimit: after ghost rl := result
+//@   at call ExploreRecursive: assert arg1 == rl
+//@   at call syncEntries: assert arg2 == peerInfo && arg3 == entCid && arg5 == ite(hook0 == nil, s.generalBlockHook, hook0) && arg6 == s.segDepthLimit
+//@   at call syncEntries: assert opts.depthLimit == 0 ==> arg4 == s.selectorEnts
 //@   ensures-local count("call:syncEntries") == 1 && (count("call:recursionLimit") == 1 <==> opts.depthLimit != 0)
 
 // A HAMT: everything reachable, the per-call hook if given, no segmentation.
@@ -461,8 +461,8 @@ package dagsync
 //@   property C01
 //@   requires subOK(s) && handlersFree(s) && handlersSyncers(s) && ctx != nil && !held(s.expSyncMutex) && !held(s.handlersMutex) && !held(s.scopedBlockHookMutex) && !held(s.ipniSync.clientHostMutex)
 //@   ghost hook0 := zero("BlockHookFunc")
-//@   at call getSyncOpts#1: after ghost hook0 := result.blockHook
-//@   at call syncEntries#1: assert arg2 == peerInfo && arg3 == entCid && arg4 == s.selectorAll && arg5 == ite(hook0 == nil, s.generalBlockHook, hook0) && arg6 == -1
+//@   at call getSyncOpts: after ghost hook0 := result.blockHook
+//@   at call syncEntries: assert arg2 == peerInfo && arg3 == entCid && arg4 == s.selectorAll && arg5 == ite(hook0 == nil, s.generalBlockHook, hook0) && arg6 == -1
 
 // The block-hook dispatcher given to the ipnisync client (C08): the hook registered for the publisher, if
 // any, is looked up under the read lock, which is released before the hook runs; it runs at most once,
@@ -470,7 +470,7 @@ package dagsync
 //@ func wrapBlockHook$1
 //@   property C08
 //@   requires scopedBlockHook != nil && !held(scopedBlockHookMutex)
-//@   at call f#1: assert has(scopedBlockHook, peerID) && arg0 == peerID && arg1 == cid && !held(scopedBlockHookMutex)
+//@   at call f: assert has(scopedBlockHook, peerID) && arg0 == peerID && arg1 == cid && !held(scopedBlockHookMutex)
 //@   ensures-local count("rlock:scopedBlockHookMutex") == 1 && count("runlock:scopedBlockHookMutex") == 1 && !held(scopedBlockHookMutex)
 //@   ensures-local count("call:f") <= 1 && (count("call:f") == 1 <==> old(has(scopedBlockHook, peerID)))
 
@@ -487,8 +487,8 @@ package dagsync
 //@   requires actions != nil
 //@   ghost pc := zero("cid.Cid")
 //@   ghost pe := zero("error")
-//@   at call prevAdCid#1: after ghost pc := result0
-//@   at call prevAdCid#1: after ghost pe := result1
+//@   at call prevAdCid: after ghost pc := result0
+//@   at call prevAdCid: after ghost pe := result1
 //@   at call SetNextSyncCid: assert pe == nil && arg1 == pc
 //@   at call FailSync: assert pe != nil && arg1 == pe
 //@   ensures-local count("call:prevAdCid") == 1
